@@ -319,16 +319,21 @@ def RespBody.frames {ρ} (innerFrames : ρ → Body) : RespBody ρ → Body
 
 /-- `prepare_request` with no compression configured.  The origin is given as its
 `scheme://authority` prefix, the *path* of its path-and-query (`""` when absent) and whether it
-has a query (the code compares the whole path-and-query with `"/"`, so `/?q` counts as a base
-path and yields `//…`; the origin's query itself is dropped). -/
-def prepareRequest {β} (originPrefix originPath : Bytes) (originHasQuery : Bool) (path : Bytes)
+has a query (the origin's query is dropped; since fix "an origin whose path is / adds no prefix …"
+only the PATH decides whether there is a prefix: `""` and `"/"` contribute nothing). -/
+def prepareRequest {β} (originPrefix originPath : Bytes) (_originHasQuery : Bool) (path : Bytes)
     (t : TRequest β) : Request β :=
-  let pnq := if originPath.isEmpty || (originPath == str "/" && !originHasQuery) then path
+  let pnq := if originPath.isEmpty || originPath == str "/" then path
              else originPath ++ path
   let r := intoHttp t (originPrefix ++ pnq) (str "POST") 2 .yes
   let h := insert (str "te") (str "trailers", false) r.headers
   let h := insert nameContentType (grpcContentType, false) h
   { r with headers := h }
+
+/-- The path join of `prepare_request` AS FOUND at the pinned commit: the code compared the whole
+path-and-query with `"/"`, so `/?q` counted as a base path and yielded `//…`. -/
+def pathJoinAsFound (originPath : Bytes) (originHasQuery : Bool) (path : Bytes) : Bytes :=
+  if originPath.isEmpty || (originPath == str "/" && !originHasQuery) then path else originPath ++ path
 
 /-- `Code::from_bytes` (then `as i32`), arm by arm -/
 def codeFromBytes (b : Bytes) : Nat :=
